@@ -2,7 +2,7 @@
    Model theorems are about Sys/Rand.v (computations over an entropy stream indexed by draw); the
    table lemma is instantiated on every check with the call-site table regenerated from the source
    (coq/Gen/RandSitesTable.v, theorem all_sites_checked, re-proved by vm_compute). *)
-From Coq Require Import List NArith Arith Bool.
+From Coq Require Import List NArith ZArith Arith Bool.
 From GmVerif Require Import Sys.Rand Sys.Tables.
 Import ListNotations.
 
@@ -91,9 +91,19 @@ Theorem C18_marking_before_refill_reuses_a_nonce :
 Proof. exact marking_before_refill_reuses_a_nonce. Qed.
 Print Assumptions C18_marking_before_refill_reuses_a_nonce.
 
-(* table side: on ANY table for which the decidable row predicate holds, the status of every call
-   of an entropy-dependent function is used by its caller *)
+(* table side: on ANY table for which the decidable row predicate holds, the status of every call of an
+   entropy-dependent function is used by its caller, and every failure value of the callee (read off its return
+   statements) is sent down a different branch than the success value 1 by at least one of the caller's tests:
+   `!= 1`, `== 1`, `<= 0` are adequate for {0,-1}; `!f()`, `if (f())`, `== 0` are not adequate for -1; `< 0` not for 0 *)
 Theorem C18_rand_table_sound : forall tbl : list rand_site,
-  forallb site_ok tbl = true -> forall s, In s tbl -> s_result_used s = true.
+  forallb site_ok tbl = true ->
+  forall s, In s tbl ->
+    s_result_used s = true /\
+    forall v, In v (s_fails s) -> exists t, In t (s_tests s) /\ distinguishes t v = true.
 Proof. exact rand_table_sound. Qed.
 Print Assumptions C18_rand_table_sound.
+
+Theorem C18_distinguishes_sound : forall t v a b,
+  distinguishes t v = true -> eval_test t v = Some a -> eval_test t 1%Z = Some b -> a <> b.
+Proof. exact distinguishes_sound. Qed.
+Print Assumptions C18_distinguishes_sound.
